@@ -61,6 +61,11 @@ func (c *Conversation) verifySMP1(msg smp1Message) error {
 		return newOtrError("g3a is an invalid group element")
 	}
 
+	if msg.g2a != nil && msg.g3a != nil && (mod(msg.g2a, p).Sign() == 0 || mod(msg.g3a, p).Sign() == 0) {
+		// 0 is in no version an element of the group: it would make the generators g2, g3 vanish
+		return newOtrError("g2a or g3a is congruent to zero")
+	}
+
 	if !verifyZKP(msg.d2, msg.g2a, msg.c2, 1, c.version) {
 		return newOtrError("c2 is not a valid zero knowledge proof")
 	}
